@@ -124,6 +124,12 @@ impl ActixStream for Shaped {
 }
 
 pub fn pipe_pair() -> (Pipe, Pipe) {
-    let (a, b) = tokio::io::duplex(1 << 20);
+    pipe_pair_cap(1 << 20)
+}
+
+/// a pipe that holds at most `cap` bytes per direction: a writer that is ahead of its reader sees
+/// `Pending` in the middle of what it writes
+pub fn pipe_pair_cap(cap: usize) -> (Pipe, Pipe) {
+    let (a, b) = tokio::io::duplex(cap.max(64));
     (Pipe(a), Pipe(b))
 }
